@@ -122,6 +122,15 @@ theorem onRunResAwait_eq (a : Await) : Gen.Startup.onRunResAwait a = onRunResAwa
 /-- both cases re-check "all finished" after updating their counters ("there is a race between run and start results") -/
 theorem checksAll_eq : Gen.Startup.startResChecksAll = true ∧ Gen.Startup.runResChecksAll = true := ⟨rfl, rfl⟩
 
+/-- the await loop of `Engine.Run` -/
+theorem engineRun_eq (n i : Int) (evs : List EngEv) : Gen.Startup.engineRun n i evs = engSeq n i evs := by
+  induction evs generalizing i with
+  | nil => simp [Gen.Startup.engineRun, engSeq]
+  | cons ev rest ih =>
+    cases ev with
+    | result errNil => simp [Gen.Startup.engineRun, engSeq, ih]
+    | ctxDone => simp [Gen.Startup.engineRun, engSeq]
+
 /-- what the pool layer does with a run result is what the regenerated case does — up to the redundant
 `isStartFinished` guard (cancelling an already finished instance start changes nothing) -/
 theorem onInstanceResult_model (a sf : Bool) (ce : Ctx → Bool) :
